@@ -140,7 +140,7 @@ pub fn gen_doc(rng: &mut Rng, i: u64) -> Tree {
 }
 
 pub fn run(ctx: &mut Ctx) {
-    let n = ctx.budget(60_000, 2_500_000);
+    let n = if ctx.miri { ctx.miri_cases(25) } else { ctx.budget(500_000, 10_000_000) };
     let cfg = PathCfg { max_steps: 4, filters: true, big_indices: false };
     for i in 0..n {
         if !ctx.next_case() {
